@@ -10,14 +10,14 @@ META = dict(
     assumptions=["argument expressions are abstract (their values/addresses symbolic)", "the callee clobbers caller-saved registers only"],
     explanation="per-signature proofs over a chosen signature list (bounded in the signature quantifier)",
 )
-SIGS = ["", "l", "il", "i", "d", "f", "iiiiii", "iiiiiii", "dddddddd", "ddddddddd", "idid", "p", "q", "r", "s", "t", "u", "m",
+SIGS = ["", "l", "il", "n", "in", "i", "d", "f", "iiiiii", "iiiiiii", "dddddddd", "ddddddddd", "idid", "p", "q", "r", "s", "t", "u", "m",
         "iiiiip", "iiiiipi", "iiiiir", "iiiir", "dddddddq", "ddddddds", "dddddds", "iiiiit", "ddddddddt", "iiiiiiu", "pqpq", "mi", "iiiiiim", "rst",
         "iiiiiid", "ddddddddi"]
 def jobs(tier):
     js = []
     for sg in SIGS:
         for sp0 in (0, 1):
-            quick = (sp0 == 0 and sg in ("iiiiiii", "ddddddddd", "iiiiip", "dddddddq", "iiiiit", "iiiir", "l", "il")) or (sp0 == 1 and sg in ("iiiiiii", "m"))
+            quick = (sp0 == 0 and sg in ("iiiiiii", "ddddddddd", "iiiiip", "dddddddq", "iiiiit", "iiiir", "l", "il", "n")) or (sp0 == 1 and sg in ("iiiiiii", "m"))
             js.append(Job(name=f"call-{sg or 'void'}-sp{sp0}", src="call.c", group="C06 caller", defs={"SIG": '\'"%s"\'' % sg, "SP0": str(sp0)},
                           tier="quick" if quick else "thorough", bounded="chosen signature list (values symbolic)",
                           sample=f"call with argument classes '{sg}', {sp0} word(s) already pushed", **CG))
